@@ -40,8 +40,9 @@ def main():
         paths = re.findall(r"([\w./-]+\.go)", dp)
         demos = [f for f in os.listdir(a.src) if f.endswith(".go")]
         placed = []
+        arrows = dict(re.findall(r"([\w.-]+\.go)\s*->\s*([\w./-]+\.go)", dp))   # "file.go -> path/in/repo.go" lines
         for d in demos:
-            dest = next((p for p in paths if os.path.basename(p) == d and "/" in p), None)
+            dest = arrows.get(d) or next((p for p in paths if os.path.basename(p) == d and "/" in p), None)
             if dest is None: dest = next((p for p in paths if "/" in p), None)
             dest = dest.lstrip("./")
             if dest.startswith("tmp/") or dest.startswith("/"):
